@@ -230,8 +230,10 @@ class FileInfo:
             self.arch_len = 0
             return
 
-        self.start_data = data[:self.vpk.dir_limit]
-        arch_data = data[self.vpk.dir_limit:]
+        limit = self.vpk.dir_limit
+        self.start_data = data[:limit]
+        # No limit means everything is kept in the directory: data[None:] would be all of the data again.
+        arch_data = data[limit:] if limit is not None else b''
 
         self.arch_len = len(arch_data)
 
